@@ -12,6 +12,9 @@ import subprocess
 ROOT = os.path.dirname(os.path.dirname(os.path.abspath(__file__)))
 
 MAP = [
+    ("decode_bech32 requires the separator after the regtest prefix", "C09", "bcrt!q..., bcrtxq... decoded like bcrt1q...: a second string for the same script"),
+    ("decode_bech32 rejects non-zero or over-long padding", "C09", "segwit addresses with non-zero padding bits or an extra zero group (valid checksum) decoded to the program of the canonical address (BIP173 MUST reject)"),
+    ("base58 addresses are accepted only with a standard version byte", "C09", "address_to_script_pubkey / TxOut.to_address chose the script from the first character: Base58Check strings with version 0x06, 0x6e.. or a 19/21-byte payload were returned as P2PKH/P2SH scripts"),
     ("parse_sec checks the length that goes with the SEC prefix", "C03", "65-byte strings 02/03 || 00*32 || x parsed as the compressed key of x (the 64 payload bytes were read as one integer); 33 bytes with prefix 04 likewise unchecked"),
     ("NetworkEnvelope.parse strips only the trailing zero padding", "C19", "a command with a leading NUL byte did not round-trip (strip() removed NULs on both sides; six NULs + 'verack' parsed as verack)"),
     ("default version nonce is drawn from [0, 2^64 - 1]", "C19", "VersionMessage() drew its nonce with randint(0, 2**64): the inclusive upper bound does not fit the 8-byte field (OverflowError; found by stubbing randint to return its bounds)"),
